@@ -482,6 +482,10 @@ class BodyPartReader:
                 chunk += await self._content.read(size)
             except BaseException:
                 # Don't lose what was already taken out of the stream.
+                if first_chunk:
+                    # The retry starts over: it adds the CRLF again.
+                    assert self._prev_chunk is not None
+                    chunk, self._prev_chunk = self._prev_chunk[2:] + chunk, None
                 with warnings.catch_warnings():
                     warnings.filterwarnings("ignore", category=DeprecationWarning)
                     self._content.unread_data(chunk)
@@ -537,7 +541,12 @@ class BodyPartReader:
                 self._unread.append(line)
                 return b""
         else:
-            next_line = await self._content.readline()
+            try:
+                next_line = await self._content.readline()
+            except BaseException:
+                # Interrupted while waiting: keep the line for the next call.
+                self._unread.appendleft(line)
+                raise
             if next_line.startswith(self._boundary):
                 line = line[:-2]  # strip CRLF but only once
             self._unread.append(next_line)
